@@ -401,6 +401,39 @@ def _nondeterminism(chk, ctx) -> None:
     # iteration over an unordered set must not drive the state
     set_fields = {n for n, a in st.ann.items() if ast.unparse(a).split('[')[0] == 'set'}
     bad = []
+
+    def set_valued(e, local_sets) -> bool:
+        if isinstance(e, (ast.Set, ast.SetComp)):
+            return True
+        if isinstance(e, ast.Call) and isinstance(e.func, ast.Name) and e.func.id in ('set', 'frozenset'):
+            return True
+        if isinstance(e, ast.Call) and isinstance(e.func, ast.Attribute) and e.func.attr in ('union', 'intersection', 'difference', 'symmetric_difference', 'copy') \
+                and set_valued(e.func.value, local_sets):
+            return True
+        if isinstance(e, ast.BinOp) and isinstance(e.op, (ast.Sub, ast.BitOr, ast.BitAnd, ast.BitXor)):
+            return set_valued(e.left, local_sets) or set_valued(e.right, local_sets)
+        if isinstance(e, ast.Name):
+            return e.id in local_sets
+        return self_attr(e) in set_fields
+    for name, fi in st.methods.items():
+        local_sets = set()
+        for _ in range(2):
+            for node in ast.walk(fi.node):
+                if isinstance(node, ast.Assign) and len(node.targets) == 1 and isinstance(node.targets[0], ast.Name) and set_valued(node.value, local_sets):
+                    local_sets.add(node.targets[0].id)
+        for node in ast.walk(fi.node):
+            sinks = []
+            if isinstance(node, (ast.For, ast.comprehension)):
+                sinks.append(node.iter)
+            if isinstance(node, ast.Call) and isinstance(node.func, ast.Name) and node.func.id in ('list', 'tuple', 'next', 'iter', 'deque', 'enumerate', 'zip', 'chain') :
+                sinks.extend(node.args)
+            if isinstance(node, ast.Call) and isinstance(node.func, ast.Attribute) and node.func.attr in ('extend', 'extendleft', 'join'):
+                sinks.extend(node.args)
+            if isinstance(node, ast.Starred):
+                sinks.append(node.value)
+            for e in sinks:
+                if set_valued(e, local_sets) and (fi, node) not in bad:
+                    bad.append((fi, node))
     for name, fi in st.methods.items():
         for node in ast.walk(fi.node):
             its = []
